@@ -325,6 +325,7 @@ def oracle(log, scenario=(), want=("C12", "C13")):
     inconclusive = False
     ended = None
     evreg, in_main = {}, set()
+    detached_by = {}
     for n, t, w in parse(log):
         k = w[0]
         if k == "FATAL":
@@ -375,6 +376,10 @@ def oracle(log, scenario=(), want=("C12", "C13")):
             elif w[1].startswith("dead:"):
                 d = int(w[1].split(":")[1])
                 dead_creator[d] = t
+        elif k == "IPOST" and w[1].startswith("dead:"):
+            if t in detached_by:
+                bad("thread:creator-deinit-live-thread", f"line {n}: T{t} posts its `dead` event although its creator T{detached_by[t]} "
+                    "deinitialised its loop before (post into a freed iv_state)")
         elif k == "TSTART":
             d = int(w[1].split(":")[1])
             dead_thread[d] = t
@@ -451,6 +456,7 @@ def oracle(log, scenario=(), want=("C12", "C13")):
             joined.add(int(w[1][1:]))
         elif k == "THREAD-DETACH":
             joined.add(int(w[1][1:]))
+            detached_by[int(w[1][1:])] = t          # the creator t deinitialised its loop with this thread unjoined
         elif k == "MAINRET":
             mainret[t] = n
             if t not in quitters:
